@@ -39,6 +39,7 @@ from tlz import (
 
 from dask import config
 from dask._task_spec import (
+    Alias,
     GraphNode,
     List,
     Task,
@@ -114,12 +115,19 @@ def lazify_task(task, start=True):
             task = task.args[0]
         if task.func is _execute_subgraph:
             subgraph, outkey, inkeys, *dependencies = task.args
-            # If there is a reify at the output of the subgraph we don't want to act
-            final_task = lazify_task(subgraph[outkey], True)
+            # If there is a reify at the output of the subgraph we don't want to act.
+            # The output may merely be an alias of another node of the subgraph
+            # (e.g. bag.concat fused with the partition it points to): that node
+            # then is the real output and has to stay reified as well, or the
+            # task would hand one lazy iterator to all of its dependents
+            outputs = {outkey}
+            out = subgraph[outkey]
+            while isinstance(out, Alias) and out.target in subgraph:
+                outputs.add(out.target)
+                out = subgraph[out.target]
             subgraph = {
-                k: lazify_task(v, False) for k, v in subgraph.items() if k != outkey
+                k: lazify_task(v, k in outputs) for k, v in subgraph.items()
             }
-            subgraph[outkey] = final_task
             return Task(
                 task.key,
                 _execute_subgraph,
